@@ -215,7 +215,7 @@ class C10(HistoryProfile):
   def base_weights(self):
     w = dict(gen.DEFAULT_WEIGHTS)
     w.update({"add_data_column": 10, "remove_records": 14, "update_records": 12, "add_records": 10,
-              "remove_table": 3, "add_reverse": 3, "add_summary": 2})
+              "remove_table": 3, "add_reverse": 3, "add_summary": 2, "ref_trigger": 3})
     return w
 
   def new_generator(self, rng, cfg):
@@ -622,15 +622,23 @@ def op_position_edit(g, dv, protected):
     k = rng.random()
     if pos and k < 0.35:
       return rng.choice(pos)
-    if pos and k < 0.6:
+    if pos and k < 0.5:
       return _nextafter(rng.choice(pos), rng.random() < 0.5)
+    if pos and k < 0.6:
+      # a few representable floats away from an existing row: leaves gaps that hold some new
+      # rows but not many ("crowded neighbouring floats")
+      v = rng.choice(pos)
+      up = rng.random() < 0.5
+      for _ in range(rng.randint(2, 6)):
+        v = _nextafter(v, up)
+      return v
     if k < 0.7:
       return rng.choice([float("inf"), -float("inf"), 0.0, -1.0, 1e308])
     if pos and k < 0.85:
       a = rng.choice(pos)
       return (a + rng.choice(pos)) / 2.0
     return rng.choice([0.5, 1.5, 2.5, 100.0, None])
-  n = rng.choice([1, 2, 3, 5])
+  n = rng.choice([1, 2, 3, 4, 5, 6])
   kind = rng.random()
   if kind < 0.6 or not t.row_ids:
     n = max(1, min(n, g.max_rows - len(t.row_ids)))
@@ -684,12 +692,47 @@ class C20(HistoryProfile):
     cfg["weights"] = gen.swarm_weights(rng, self.base_weights(),
                                        keep=("add_records", "add_table", "position_edit"))
     cfg["max_rows"] = rng.choice([8, 12, 20])
+    # "Crowded neighbouring floats" only come about one way: the engine recomputes every requested
+    # position, so a gap of a few representable floats needs some 50 halvings of one gap. A share
+    # of the runs starts with a script that does exactly that (batches tied with one anchor row,
+    # older batches removed again so the table stays small), then goes on with the usual edits
+    # around rows that are now a few ulps apart -- where the engine has to renumber.
+    cfg["crowd_rounds"] = rng.choice([0, 0, 0, 0, 14, 20, 26])
+    if cfg["crowd_rounds"]:
+      cfg["max_events"] = 2 * cfg["crowd_rounds"] + rng.randint(8, 20)
+      cfg["max_rows"] = 40
     return cfg
+
+  def next_event(self, sim, g, cfg, st, i):
+    rounds = cfg.get("crowd_rounds", 0)
+    if rounds and 1 <= i <= 2 * rounds:
+      dv = DocView(sim.sigma)
+      ts = gen.data_tables(dv)
+      t = ts[0] if ts else None
+      if t is not None and len(t.row_ids) >= 2:
+        anchor = st.setdefault("anchor", sorted(t.row_ids)[-1])
+        pos = dv.cells(t.tableId, "manualSort")
+        if anchor in pos and isinstance(pos[anchor], (int, float)):
+          batches = st.setdefault("batches", [])
+          if i % 2 == 0 and len(batches) >= 2:
+            old = [r for r in batches.pop(0) if r in pos and r != anchor]
+            if old:
+              return {"k": "bundle", "ops": ["crowd_remove"], "a": [["BulkRemoveRecord", t.tableId, old]]}
+          n = g.rng.randint(3, 6)
+          st["expect_batch"] = True
+          return {"k": "bundle", "ops": ["position_edit", "crowd"],
+                  "a": [["BulkAddRecord", t.tableId, [None] * n, {"manualSort": [pos[anchor]] * n}]]}
+    return super(C20, self).next_event(sim, g, cfg, st, i)
 
   def check(self, sim, out, st):
     k = out.ev["k"]
     if not out.ok or k not in ("bundle",):
       return
+    if "crowd" in out.ev.get("ops", ()) and out.ret and isinstance(out.ret[0], list):
+      st.setdefault("batches", []).append(list(out.ret[0]))
+      gaps = sorted(v for v in sim.sigma[out.ev["a"][0][1]][3]["manualSort"] if isinstance(v, float))
+      if any(b > a and (b - a) <= 8 * math.ulp(a) for a, b in zip(gaps, gaps[1:])):
+        sim.count("probe.rows_within_8_ulps")
     snap = sim.sigma
     for tid, cid in position_columns(snap):
       vals = snap[tid][3].get(cid)
@@ -773,7 +816,10 @@ HOSTILE_NAMES = ["class", "def", "None", "True", "for", "1abc", "_x", "__init__"
                  "é", "Ünï", "é", "名前", "", " ", "A", "a", "id", "ID", "Id", "manualSort",
                  "group", "count", "x" * 70, "9", "_", "$x", "T1", "t1", "Table1", "TABLE1", "lookupRecords",
                  "rec", "table", "gristHelper_Display", "a__b", "a*b", "a_b", "A_B", "\n", "a\tb", "😀",
-                 "if", "else", "print", "Record", "sum", "x1", "X1", "_grist_Tables", "GristHidden_x"]
+                 "if", "else", "print", "Record", "sum", "x1", "X1", "_grist_Tables", "GristHidden_x",
+                 # words that only become keywords once capitalised (table ids are), and friends
+                 "none", "true", "false", "_none", " false", "NONE", "async", "await", "match", "Class",
+                 "nonlocal", "lambda", "__", "0", "a" * 200]
 
 
 def op_hostile_name(g, dv, protected):
@@ -845,6 +891,14 @@ class C21(HistoryProfile):
     return cfg
 
   def check(self, sim, out, st):
+    if out.ok is False and out.ev["k"] == "bundle" and "hostile_name" in out.ev.get("ops", ()):
+      # A requested name never makes the action fail: the engine picks an id for it. An id that
+      # is not valid Python shows up as the generated module failing to compile.
+      err = str(out.error)
+      if "SyntaxError" in err or "invalid syntax" in err or "keyword" in err or "IndentationError" in err:
+        raise vio(sim, "chosen-id-does-not-compile", "%s raised %s" % (
+          json.dumps(out.ev["a"], default=repr)[:300], err[:300]))
+      sim.count("probe.hostile_name_action_rejected")
     if not out.ok or out.ev["k"] not in ("bundle", "undo", "redo"):
       return
     dv = DocView(sim.sigma)
@@ -1315,6 +1369,7 @@ class C26(HistoryProfile):
     if len(rows) < 2:
       return None
     temp = {"A": [], "B": []}
+    hi = {t: max(rows[t] + [0]) for t in rows}
     acts = []
     next_neg = [-1]
     def new_temp(t):
@@ -1344,6 +1399,7 @@ class C26(HistoryProfile):
       kind = rng.choice(["add", "add", "bulkadd", "update", "remove", "update"])
       if kind == "add":
         rid = new_temp(t) if rng.random() < 0.8 else None
+        hi[t] += 1
         if t == "A":
           vals = {"n": rng.randint(0, 9), "rb": ref("B", isbad), "lb": reflist("B"), "self": ref("A")}
         else:
@@ -1352,6 +1408,14 @@ class C26(HistoryProfile):
       elif kind == "bulkadd":
         n = rng.randint(1, 3)
         ids = [new_temp(t) if rng.random() < 0.7 else None for _ in range(n)]
+        if rng.random() < 0.35:
+          # explicit ids next to temporary ones, at or just above the id the table would hand out
+          # next (an estimate: a wrong guess only gets the bundle rejected)
+          k = rng.randrange(n)
+          if ids[k] is not None:
+            temp[t].remove(ids[k])
+          ids[k] = hi[t] + rng.choice([1, 1, 2, 3]) + sum(1 for x in ids[:k] if x is None or x < 0) * rng.choice([0, 1])
+        hi[t] = max([hi[t] + n] + [x for x in ids if isinstance(x, int) and x > 0])
         if t == "A":
           vals = {"n": [rng.randint(0, 9) for _ in range(n)], "rb": [ref("B") for _ in range(n)],
                   "lb": [reflist("B", isbad and k == 0) for k in range(n)]}
